@@ -47,7 +47,7 @@ def plan(tier):
         for fam in fams:
             count = _PER[tier]
             if tier == 'quick' and fam in ('3pt-D0-flat', '3pt-D0-large',
-                                           '3pt-far-small-D'):
+                                           '3pt-far-small-D', '3pt-decimal-sweep'):
                 # decided by rounding noise: one card in ten or twenty shows
                 # a wrong tolerance, and a case costs a few milliseconds
                 count = 60
